@@ -10,7 +10,7 @@ CLAIMED = {
         "Explicit-state exploration of the real SolarDay/JulianDay code in lock-step with a day-counting odometer of the civil calendar: "
         "all 3,652,061 dates x 100 step sizes (every n in 1..40 and the month/year/century sized ones, both signs) x every observer (to/from day count at 3 fractions, next, subtract, order, day-of-year) and all "
         "4.6M candidate (year,month,day) triples for acceptance, plus year/month lengths and leap flags of every year. The space is finite and is "
-        "enumerated completely in both tiers, so any constant/threshold/leap-rule slip that changes one date is seen.",
+        "enumerated completely in both tiers, so any constant/threshold/leap-rule slip that changes one date is seen. SolarYear::new / SolarMonth::new are accepted exactly for years 1..9999 and months 1..12.",
         "Trusted: the odometer reference model (cross-checked at start-up against integer closed-form JDN formulas) and f64 determinism on one machine. Steps whose result leaves 0001..9999 are outside the claim.",
         "explicit-state enumeration of all dates x step alphabet against a civil-calendar odometer model",
         "DESIGN.md 2/C01"),
@@ -35,12 +35,12 @@ CLAIMED = {
         "exhaustive enumeration of all terms/lunations of bounded eras against an independent ephemeris model + self-consistency sweeps",
         "DESIGN.md 2/C05"),
     "C13": (
-        "Every civil year 1..9999: 2 half-years, 4 seasons, 12 months, nesting both ways; every one of the 119,988 months lists exactly the odometer's dates of that month, each listed date's day-of-year equals its position in the year's lists, the lists sum to the year's day count. Every lunar year 0..9999: month list = lunation table slice; every lunation lists days 1..=len on consecutive civil days. Hour lists (LunarDay 13 slots, SixtyCycleDay 12 slots with pillars) on 4 x 400 consecutive days; sexagenary months of all Lichun-years (quick: windows) list exactly Jie day .. day before the next Jie. Listed parts point back to their container (get_solar_month, get_solar_year, get_lunar_year, get_lunar_month, get_sixty_cycle_month); lunar months have 29 or 30 days and their listed days convert back to themselves; the month of sexagenary year 0 and the hour lists of the first and last weeks of the range.",
+        "Every civil year 1..9999: 2 half-years, 4 seasons, 12 months, nesting both ways; every one of the 119,988 months lists exactly the odometer's dates of that month, each listed date's day-of-year equals its position in the year's lists, the lists sum to the year's day count. Every lunar year 0..9999: month list = lunation table slice; every lunation lists days 1..=len on consecutive civil days. Hour lists (LunarDay 13 slots, SixtyCycleDay 12 slots with pillars) on 4 x 400 consecutive days; sexagenary months of all Lichun-years (quick: windows) list exactly Jie day .. day before the next Jie. Listed parts point back to their container (get_solar_month, get_solar_year, get_lunar_year, get_lunar_month, get_sixty_cycle_month); lunar months have 29 or 30 days and their listed days convert back to themselves; the month of sexagenary year 0 and the hour lists of the first and last weeks of the range; each hour slot points back to its day's pillar.",
         "Oracles: odometer, lunation table (model order), the library's own Jie days.",
         "exhaustive enumeration of all containers with list-equals-model oracles",
         "DESIGN.md 2/C13"),
     "C14": (
-        "Every civil month (thorough: all 119,988; quick: windows) x 7 week starts x every index: week count and refusal beyond it, first-day weekday, 7 consecutive days, date->week for every date of the month, next(n) (first day moves 7n and the (month, index) label denotes that week) for 13 step counts and for every n in -60..60 in years 1-3, 1580-1584, 1998-2030, 9997-9999, index in year. Lunar months of the windows (thorough: plus every 10th year) likewise with n in -30..30.",
+        "Every civil month (thorough: all 119,988; quick: windows) x 7 week starts x every index: week count and refusal beyond it, first-day weekday, 7 consecutive days, date->week for every date of the month, next(n) (first day moves 7n and the (month, index) label denotes that week) for 13 step counts and for every n in -60..60 in years 1-3, 1580-1584, 1998-2030, 9997-9999, index in year. Lunar months of the windows (thorough: plus every 10th year; quick: plus every 17th year and every 13th civil month of the whole range) likewise with n in -30..30; label getters and names of both week types.",
         "Weeks reaching outside 0001-01-01..9999-12-31 are outside the claim; lunar weeks of the reform-era years 7-26 / 235-241 are left to C02/C03.",
         "exhaustive enumeration of all (month, start, index) weeks x step alphabet against an ordinal week model",
         "DESIGN.md 2/C14"),
@@ -50,7 +50,7 @@ CLAIMED = {
         "explicit-state enumeration of all dates against series re-derived from term table + day pillar",
         "DESIGN.md 2/C15"),
     "C16": (
-        "Fully enumerated birth lattices: every Jie of the year windows (quick 1573-75, 1581-83, 2019-25; thorough 2-6, 1570-1590, 1890-2110, 9985-87) x 16 offsets (0, +-1 s, +-59 s, +-1 min, +-1 h, +-1 d, +-3 d, +-15 d, +7 d 3 h) x 2 genders x 4 strategies; births on days 28-31 / 1 of every month (every day of October 1582) at 23:59:59, 00:00:00, 12:00:00; a 997 s lattice across whole Jie-to-Jie spans; one birth per day of 1572-1582. Oracle: direction from year-stem polarity and gender, governing Jie from the term table, documented conversion rates per strategy, end = calendar addition via ordinals, 0 <= end - birth <= 11 y; decade fortunes (pillar = month pillar +-(k+1), ages 10 apart, years) and yearly fortunes (hour pillar +- age, year) incl. next(n). Plus births (one per day of the 11 years before a century year) whose limit ends in 1 Feb..15 Mar of that century year (quick 7 century years, thorough all 99), and births whose limit ends in October..December 9999.",
+        "Fully enumerated birth lattices: every Jie of the year windows (quick 1573-75, 1581-83, 2019-25; thorough 2-6, 1570-1590, 1890-2110, 9985-87) x 16 offsets (0, +-1 s, +-59 s, +-1 min, +-1 h, +-1 d, +-3 d, +-15 d, +7 d 3 h) x 2 genders x 4 strategies; births on days 28-31 / 1 of every month (every day of October 1582) at 23:59:59, 00:00:00, 12:00:00; a 997 s lattice across whole Jie-to-Jie spans; one birth per day of 1572-1582. Oracle: direction from year-stem polarity and gender, governing Jie from the term table, documented conversion rates per strategy, end = calendar addition via ordinals, 0 <= end - birth <= 11 y; decade fortunes (pillar = month pillar +-(k+1), ages 10 apart, years) and yearly fortunes (hour pillar +- age, year) incl. next(n). Plus births (one per day of the 11 years before a century year) whose limit ends in 1 Feb..15 Mar of that century year (quick 7 century years, thorough all 99), and births whose limit ends in October..December 9999; all remaining getters (gender, ages, the limit's own decade, a decade's first yearly fortune, Fortune::get_name, the four deprecated lunar-year getters).",
         "'Random birth instants' of the property are replaced by these lattices. When October 1582 is the target month both readings of the day (count / number) are accepted. Limits ending after 9999 are outside the claim.",
         "exhaustive enumeration of birth-instant lattices x genders x strategies against a term-table + calendar-arithmetic model",
         "DESIGN.md 2/C16"),
@@ -60,17 +60,17 @@ CLAIMED = {
         "explicit-state enumeration of all dates/hours/years against recurrences typed from the classical rules",
         "DESIGN.md 2/C17"),
     "C18": (
-        "Complete: all 720 (month branch, day pillar) and 720 (day pillar, hour branch) pairs, visited in both table orders by two worker processes (day table first / hour table first, each table again after the other), all 151 spirits, kitchen-god steed of all lunar years 0..9999, accessors on 360 days x 12 double-hours. Oracle: no failure, entries in the published name lists with round trip, >= 1 spirit per day, recommends and avoids disjoint, luck class by list split, and equality with an independent re-decoding of the three packed tables from the source text (record framing, every hex pair < list length).",
+        "Complete: all 720 (month branch, day pillar) and 720 (day pillar, hour branch) pairs, visited in both table orders by two worker processes (day table first / hour table first, each table again after the other), all 151 spirits, kitchen-god steed of all lunar years 0..9999, accessors on 360 days x 12 double-hours, LunarYear::get_kitchen_god_steed agrees with KitchenGodSteed::from_lunar_year. Oracle: no failure, entries in the published name lists with round trip, >= 1 spirit per day, recommends and avoids disjoint, luck class by list split, and equality with an independent re-decoding of the three packed tables from the source text (record framing, every hex pair < list length).",
         "If the table literals cannot be found in /repo/src/tyme/culture/mod.rs the re-decoding sub-check reports itself as skipped (never alarms). Lunar year -1 has no constructible first month.",
         "complete enumeration of all table keys with independent re-decoding of the packed tables",
         "DESIGN.md 2/C18"),
     "C19": (
-        "Complete finite enumeration (10 stems, 12 branches, 10x10, 10x12, 12x12, 5 elements, 9 directions, 60 pillars, 28 mansions, 9+12+6 stars, 366 month-days, 13 lunar months, 1440 palace-sign inputs): every attribute compared with a first-principles encoding typed by name (generation/overcoming cycle, the five direction rhymes, hidden stems, ten-star by relation x polarity, growth stages, five/six combinations, clashes, harms as involutions, Nayin, Xun and void, zodiac, sign boundaries, daily/monthly foetus spirit, mansion luminary/animal/land/luck, star colours/elements/directions, own sign and body sign by the Five-Tigers rule). The printed foetus-spirit name is composed from place / side / direction; the LunarDay / SixtyCycleDay routes to it are followed on 60 consecutive days.",
+        "Complete finite enumeration (10 stems, 12 branches, 10x10, 10x12, 12x12, 5 elements, 9 directions, 60 pillars, 28 mansions, 9+12+6 stars, 366 month-days, 13 lunar months, 1440 palace-sign inputs): every attribute compared with a first-principles encoding typed by name (generation/overcoming cycle, the five direction rhymes, hidden stems, ten-star by relation x polarity, growth stages, five/six combinations, clashes, harms as involutions, Nayin, Xun and void, zodiac, sign boundaries, daily/monthly foetus spirit, mansion luminary/animal/land/luck, star colours/elements/directions, own sign and body sign by the Five-Tigers rule). The printed foetus-spirit name is composed from place / side / direction; the LunarDay / SixtyCycleDay routes to it are followed on 60 consecutive days. The five small enums (code / name round trips, unknown values refused) and HideHeavenStem::from_name.",
         "The encoding is the trusted base. For 戊戌 己亥 戊申 of the daily foetus-spirit table both printed variants are accepted; the body sign is only required to be a Five-Tigers-legal pillar.",
         "complete enumeration of finite attribute tables against an independent encoding",
         "DESIGN.md 2/C19"),
     "C20": (
-        "Civil festivals: every civil date of 1900..2100 (quick 1925..2035) by date, every (year, index 0..11) with next(n), n in -25..25. Lunar festivals: every lunar year (quick: windows + 1925..2035) x indices 0..14: day vs the model (fixed lunar dates, Qingming / winter-solstice term days, New Year's Eve = last day of the year), the day's own lookup returns it or the earlier-listed one, next(n) for 11 step counts; every lunar date of 1900..2100 (quick 1990..2030) by date. Legal holidays: all records framed independently (13 chars): real date, strictly increasing, offset target is a rest day of the table, lookup returns exactly the record, membership of every civil date 2000..2030, next(n) for every n from two before the table start to two past its end (quick: 12 step counts incl. both ends), pair law. Festivals also jump to fixed far targets (|n| up to 130,000, both signs); holiday membership also of every date whose 8 digits occur anywhere in the packed table text and of the first / last day of every month of 0001..9999.",
+        "Civil festivals: every civil date of 1900..2100 (quick 1925..2035) by date, every (year, index 0..11) with next(n), n in -25..25. Lunar festivals: every lunar year (quick: windows + 1925..2035) x indices 0..14: day vs the model (fixed lunar dates, Qingming / winter-solstice term days, New Year's Eve = last day of the year), the day's own lookup returns it or the earlier-listed one, next(n) for 11 step counts; every lunar date of 1900..2100 (quick 1990..2030) by date. Legal holidays: all records framed independently (13 chars): real date, strictly increasing, offset target is a rest day of the table, lookup returns exactly the record, membership of every civil date 2000..2030, next(n) for every n from two before the table start to two past its end (quick: 12 step counts incl. both ends), pair law. Festivals also jump to fixed far targets (|n| up to 130,000, both signs); holiday membership also of every date whose 8 digits occur anywhere in the packed table text and of the first / last day of every month of 0001..9999; festival kind (date / term / eve) and the term a term festival is tied to.",
         "Lunar festivals of the reform-era years 7-26 / 235-241 are left to C02/C03.",
         "exhaustive enumeration of dates / indices / table records with independently framed records and table-derived festival dates",
         "DESIGN.md 2/C20"),
@@ -90,7 +90,7 @@ CLAIMED = {
         "explicit-state enumeration of all dates / all Jie boundary instants against term-table + pillar algebra model",
         "DESIGN.md 2/C08"),
     "C09": (
-        "(a) 3 eras x 60 consecutive days x 24 hours x 2 clock times: hour branch/stem (Five Rats from the day the hour belongs to), index in day, 23:00 day roll, default and LunarSect2 providers; (b) every hour of every date of the windows: eight characters = year, month, day(+1 at 23h), hour pillars from the model; (c) inverse search on every double-hour of every day of fully enumerated years (quick 1 year x 2 ranges; thorough 5 eras x 2 years x 9 ranges [y-60k, y+60k']): every returned instant recomputes to the same characters, and a double-hour containing no Jie instant contains at least one returned instant. Also Jie-instant probes, the deprecated LunarHour getters on every fifth hour, stepping of a LunarHour whose lazy views are filled, searches for characters that never occur, January windows of the eras whose Xiaohan falls in December, the late Zi hour of 31 December against ranges ending in that year.",
+        "(a) 3 eras x 60 consecutive days x 24 hours x 2 clock times: hour branch/stem (Five Rats from the day the hour belongs to), index in day, 23:00 day roll, default and LunarSect2 providers; (b) every hour of every date of the windows: eight characters = year, month, day(+1 at 23h), hour pillars from the model; (c) inverse search on every double-hour of every day of fully enumerated years (quick 1 year x 2 ranges; thorough 5 eras x 2 years x 9 ranges [y-60k, y+60k']): every returned instant recomputes to the same characters, and a double-hour containing no Jie instant contains at least one returned instant. Also Jie-instant probes, the deprecated LunarHour getters on every fifth hour, stepping of a LunarHour whose lazy views are filled, searches for characters that never occur, January windows of the eras whose Xiaohan falls in December, the late Zi hour of 31 December against ranges ending in that year, the deprecated EightChar::get_duty, every hour of every 577th (quick) / 7th (thorough) date of the whole range.",
         "Double-hours containing a Jie instant are skipped as the property states. Known finding: instants of the 160 reform-era dates (C02) inherit the wrong lunar day.",
         "explicit-state enumeration of hour lattices and exhaustive inverse-search conformance on enumerated day windows",
         "DESIGN.md 2/C09"),
